@@ -1,3 +1,173 @@
 import Srctools.Wire
-/-! stub driver (echo) — replaced when the property's model exists. -/
-def main : IO Unit := Wire.main fun j => pure j
+import Srctools.Model.Heap
+import Srctools.Model.C09
+import Srctools.Gen.Copy
+/-! Driver for C09 (copies on the heap model, driven by the table extracted from the source).
+
+store  = [obj…]            obj = [cls, mut(0/1), [[field, kind(0 val /1 ref), x]…]]
+cls    = "Side" (a class of Gen.Copy.table) | integer >= 1000 (builtin: list/set/dict/Vec/…)
+field  = "planes" (declared field of the class) | integer (element index / interned key)
+
+requests
+  {"op":"table"}                                   → {"classes":[[name,[field…]]…],"addTarget":"self"|"copy",…}
+  {"op":"copy","heap":store,"root":l,"fuel":n}     → {"ok":b,"closed":b,"immClosed":b,"wellKinded":b,"adequate":b,
+                                                      "tree":T(new root),"absEq":b,"origSame":b}
+  {"op":"frame","before":store,"after":store,"other":l,"fuel":n}
+                                                   → {"absEq":b,"changed":[l…],"confined":b}
+  {"op":"kvadd","heap":store,"a":l,"b":l,"fuel":n} → {"ok":b,"a":T,"b":T,"res":T}
+  {"op":"kviadd","which":"iadd"|"extend","heap":store,"a":l,"b":l,"fuel":n} → {"ok":b,"a":T,"b":T}
+T (labelled tree) = atom int | "cut" | "dangling" | [cls, label, mut, [[field, T]…]]
+   label = the location when it is < k (an object that existed before the operation), else -1
+-/
+open Lean Heap C09
+
+def T := Gen.Copy.table
+
+def clsOf (j : Json) : Except String Nat :=
+  match j with
+  | .str s =>
+    match T.findIdx? (fun c => c.name == s) with
+    | some i => pure (i + 1)
+    | none => throw s!"unknown class {s}"
+  | _ => do
+    let n ← j.getNat?
+    if n < 1000 then throw "builtin class ids start at 1000" else pure n
+
+def fieldOf (cid : Nat) (pos : Nat) (j : Json) : Except String Nat :=
+  match j with
+  | .str s =>
+    match T[cid - 1]? with
+    | some cs =>
+      match cs.fields.findIdx? (fun f => f.name == s) with
+      | some i => pure i
+      | none => pure (1000 + pos)
+    | none => throw s!"field name {s} on a builtin object"
+  | _ => j.getNat?
+
+def slotOf (a : Array Json) : Except String Slot := do
+  let k ← (a[1]!).getNat?
+  if k == 0 then pure (.val (← (a[2]!).getInt?)) else pure (.ref (← (a[2]!).getNat?))
+
+def objOf (j : Json) : Except String Obj := do
+  let a ← j.getArr?
+  if a.size != 3 then throw "obj: need [cls, mut, fields]"
+  let cid ← clsOf a[0]!
+  let m ← (a[1]!).getNat?
+  let fs ← (a[2]!).getArr?
+  let mut out : List (Nat × Slot) := []
+  let mut pos := 0
+  for f in fs do
+    let fa ← f.getArr?
+    if fa.size != 3 then throw "field: need [name, kind, x]"
+    let fid ← fieldOf cid pos fa[0]!
+    out := (fid, ← slotOf fa) :: out
+    pos := pos + 1
+  pure { cls := cid, mu := m != 0, fields := out.reverse }
+
+def storeOf (j : Json) : Except String Store := do
+  let a ← j.getArr?
+  a.toList.mapM objOf
+
+def clsJson (c : Nat) : Json :=
+  if c == 0 || c > T.length then Json.num (JsonNumber.fromNat c)
+  else match T[c - 1]? with
+    | some cs => Json.str cs.name
+    | none => Json.num (JsonNumber.fromNat c)
+
+def fieldJson (c f : Nat) : Json :=
+  match T[c - 1]? with
+  | some cs => if c == 0 then Json.num (JsonNumber.fromNat f) else
+    match cs.fields[f]? with
+    | some fs => Json.str fs.name
+    | none => Json.num (JsonNumber.fromNat f)
+  | none => Json.num (JsonNumber.fromNat f)
+
+/-- Labelled tree: like `abs`, plus the location of every node that is older than `k`. -/
+def labJson (k : Nat) : Nat → Store → Loc → Json
+  | 0, _, _ => Json.str "cut"
+  | n + 1, h, l =>
+    match h[l]? with
+    | none => Json.str "dangling"
+    | some o =>
+      Json.arr #[clsJson o.cls,
+        (if l < k then Json.num (JsonNumber.fromNat l) else Json.num (JsonNumber.fromInt (-1))),
+        Json.bool o.mu,
+        Json.arr (o.fields.map fun p =>
+          Json.arr #[fieldJson o.cls p.1,
+            match p.2 with
+            | .val v => Json.num (JsonNumber.fromInt v)
+            | .ref r => labJson k n h r]).toArray]
+
+/-- `abs` as JSON (no labels): used to compare pure values. -/
+def absJson (n : Nat) (h : Store) (l : Loc) : Json := labJson 0 n h l
+
+def gtreatStr : GTreat → String
+  | .deep => "deep" | .fresh => "fresh" | .immutable => "immutable" | .shared => "shared"
+  | .missing => "missing" | .reset => "reset" | .unknown => "unknown"
+
+def tr := Table.treat T
+
+/-- field id of `Keyvalues._value` -/
+def vf : Nat :=
+  match T.find? (fun c => c.name == "Keyvalues") with
+  | some cs => (cs.fields.findIdx? (fun f => f.name == "_value")).getD 0
+  | none => 0
+
+def handle (j : Json) : Except String Json := do
+  let op ← j.getObjValAs? String "op"
+  match op with
+  | "table" =>
+    pure (Json.mkObj [
+      ("classes", Json.arr (T.map fun c => Json.arr #[Json.str c.name,
+          Json.arr (c.fields.map fun f => Json.arr #[Json.str f.name, Json.str (gtreatStr f.treat)]).toArray]).toArray),
+      ("addTarget", Json.str (match Gen.Copy.kvAddTarget with | .self => "self" | .copy => "copy")),
+      ("tableOK", Json.bool (tableOK T)),
+      ("copies", Json.arr #[Json.bool Gen.Copy.kvAddCopies, Json.bool Gen.Copy.kvIAddCopies, Json.bool Gen.Copy.kvExtendCopies])])
+  | "copy" =>
+    let h ← storeOf (← j.getObjVal? "heap")
+    let l ← j.getObjValAs? Nat "root"
+    let n ← j.getObjValAs? Nat "fuel"
+    let flags := [("closed", Json.bool (closedB h)), ("immClosed", Json.bool (immClosedB h)),
+                  ("wellKinded", Json.bool (wellKindedB T h)), ("adequate", Json.bool (adequateB tr h))]
+    match copyWith tr n h l with
+    | none => pure (Json.mkObj (("ok", Json.bool false) :: flags))
+    | some (h1, l') =>
+      pure (Json.mkObj ([("ok", Json.bool true),
+        ("tree", labJson h.length n h1 l'),
+        ("absEq", Json.bool (absJson n h1 l' == absJson n h l)),
+        ("origSame", Json.bool (absJson n h1 l == absJson n h l))] ++ flags))
+  | "frame" =>
+    let b ← storeOf (← j.getObjVal? "before")
+    let a ← storeOf (← j.getObjVal? "after")
+    let l ← j.getObjValAs? Nat "other"
+    let n ← j.getObjValAs? Nat "fuel"
+    let changed := (List.range a.length).filter fun i => decide (b[i]? ≠ a[i]?)
+    let reach := reachList b l
+    let conf := changed.all fun i => !(reach.contains i) ||
+      (match b[i]? with | some o => !o.mu && a[i]? == some o | none => false)
+    pure (Json.mkObj [("absEq", Json.bool (absJson n a l == absJson n b l)),
+      ("changed", Wire.ofNatList changed), ("confined", Json.bool conf)])
+  | "kvadd" =>
+    let h ← storeOf (← j.getObjVal? "heap")
+    let a ← j.getObjValAs? Nat "a"
+    let b ← j.getObjValAs? Nat "b"
+    let n ← j.getObjValAs? Nat "fuel"
+    match kvAdd Gen.Copy.kvAddTarget tr n vf h a b with
+    | none => pure (Json.mkObj [("ok", Json.bool false)])
+    | some (h2, c) =>
+      pure (Json.mkObj [("ok", Json.bool true), ("a", labJson h.length n h2 a), ("b", labJson h.length n h2 b),
+        ("res", labJson h.length n h2 c)])
+  | "kviadd" =>
+    let h ← storeOf (← j.getObjVal? "heap")
+    let a ← j.getObjValAs? Nat "a"
+    let b ← j.getObjValAs? Nat "b"
+    let n ← j.getObjValAs? Nat "fuel"
+    let which ← j.getObjValAs? String "which"
+    let cp := if which == "iadd" then Gen.Copy.kvIAddCopies else Gen.Copy.kvExtendCopies
+    match kvIAdd cp tr n vf h a b with
+    | none => pure (Json.mkObj [("ok", Json.bool false)])
+    | some h2 =>
+      pure (Json.mkObj [("ok", Json.bool true), ("a", labJson h.length n h2 a), ("b", labJson h.length n h2 b)])
+  | _ => throw s!"unknown op {op}"
+
+def main : IO Unit := Wire.main handle
